@@ -1,6 +1,7 @@
 (* Model of core/src/parse/character.rs, primitive.rs and expr.rs (as repaired by the F7
-   "fix:" commit: nesting depth of parenthesised expressions is bounded by MAX_EXPR_DEPTH).
-   Definitions only. *)
+   "fix:" commit: nesting depth of parenthesised expressions is bounded by MAX_EXPR_DEPTH, and
+   by the C06-F23 "fix:" commit: the height of the syntax tree is bounded by MAX_EXPR_HEIGHT,
+   which also bounds the length of a chain of operators).  Definitions only. *)
 From Coq Require Import List NArith ZArith Bool.
 From Okv Require Import Model.Lit Model.Syntax Model.Comb.
 Import ListNotations.
@@ -83,23 +84,73 @@ Definition add_op : parser s_binop :=
 Definition mul_op : parser s_binop :=
   alt (chr 42 ;;; ret SMul) (chr 47 ;;; ret SDiv).
 
-Definition infixl (fuel : nat) (op : parser s_binop) (operand : parser s_expr) : parser s_expr :=
-  separated_foldl1 fuel operand (delimited space0 op space0) (fun l o r => SBinary o l r).
+(* MAX_EXPR_DEPTH, MAX_EXPR_HEIGHT of expr.rs *)
+Definition max_expr_depth : nat := 100.
+Definition max_expr_height : nat := 256.
 
-(* negate_expr / unary_expr over a given value_expr *)
-Definition negate_expr (ve : parser s_vexpr) : parser s_expr :=
-  pmap (fun v => SUnaryNeg (SValue v)) (preceded (chr 45) ve).
-Definition unary_expr (ve : parser s_vexpr) : parser s_expr :=
-  fun i => match i with
-           | [] => PErr false 0 i
-           | c :: _ => if c =? 45 then negate_expr ve i else pmap SValue ve i
+(* taller(height): the height of a tree with a child of that height, None when such a tree
+   would be taller than MAX_EXPR_HEIGHT *)
+Definition taller (height : nat) : option nat :=
+  if (height <? max_expr_height)%nat then Some (S height) else None.
+
+(* The parsers of expressions return the tree WITH the height of the tree (usize in expr.rs;
+   it is at most MAX_EXPR_HEIGHT, so it never wraps). *)
+
+(* infixl: the loop written out in expr.rs (it replaced winnow's separated_foldl1).  After
+   the first operand: read  space0 operator space0  and one more operand; a Backtrack of
+   either ends the chain in front of the separator (reset to `start`); when the folded tree
+   would be too tall, reset to `start` and fail there with a Backtrack error without a label
+   (ParserError::from_input).  No "must consume" assertion: it is not in the code. *)
+Fixpoint infixl_loop (fuel : nat) (op : parser s_binop) (operand : parser (s_expr * nat))
+         (lhs : s_expr) (height : nat) (i : list N) : presult (s_expr * nat) :=
+  match delimited space0 op space0 i with
+  | PErr false _ _ => POk (lhs, height) i
+  | PErr true l r => PErr true l r
+  | PPanic w => PPanic w
+  | PFuel => PFuel
+  | POk o r =>
+      match operand r with
+      | PErr false _ _ => POk (lhs, height) i
+      | PErr true l r' => PErr true l r'
+      | PPanic w => PPanic w
+      | PFuel => PFuel
+      | POk (rhs, rhs_height) r' =>
+          match taller (Nat.max height rhs_height) with
+          | None => PErr false 0 i
+          | Some h =>
+              match fuel with
+              | O => PFuel
+              | S n => infixl_loop n op operand (SBinary o lhs rhs) h r'
+              end
+          end
+      end
+  end.
+Definition infixl (fuel : nat) (op : parser s_binop) (operand : parser (s_expr * nat))
+  : parser (s_expr * nat) :=
+  fun i => match operand i with
+           | POk (lhs, height) r => infixl_loop fuel op operand lhs height r
+           | x => x
            end.
 
-(* MAX_EXPR_DEPTH of expr.rs *)
-Definition max_expr_depth : nat := 100.
+(* negate_expr / unary_expr over a given nested_value_expr; `verify_map` = try_map: when the
+   negation would be too tall the stream is reset to the minus sign *)
+Definition negate_expr (ve : parser (s_vexpr * nat)) : parser (s_expr * nat) :=
+  try_map (preceded (chr 45) ve)
+          (fun vh => match taller (snd vh) with
+                     | Some h => Some (SUnaryNeg (SValue (fst vh)), h)
+                     | None => None
+                     end).
+Definition unary_expr (ve : parser (s_vexpr * nat)) : parser (s_expr * nat) :=
+  fun i => match i with
+           | [] => PErr false 0 i
+           | c :: _ => if c =? 45 then negate_expr ve i
+                       else pmap (fun vh => (SValue (fst vh), snd vh)) ve i
+           end.
 
-(* value_expr with d levels of parentheses still allowed *)
-Fixpoint value_expr_d (fuel : nat) (d : nat) : parser s_vexpr :=
+(* nested_value_expr with d levels of parentheses still allowed (expr.rs counts the depth
+   upwards from 0 to MAX_EXPR_DEPTH); paren_expr: `verify_map` resets to the "(" when the
+   parenthesised tree would be too tall *)
+Fixpoint nested_value_expr (fuel : nat) (d : nat) : parser (s_vexpr * nat) :=
   fun i =>
     match i with
     | [] => PErr false 0 i
@@ -108,13 +159,19 @@ Fixpoint value_expr_d (fuel : nat) (d : nat) : parser s_vexpr :=
           match d with
           | O => PErr false 0 i
           | S d' =>
-              let add := infixl fuel add_op (infixl fuel mul_op (unary_expr (value_expr_d fuel d'))) in
-              pmap SParen (paren (delimited space0 add space0)) i
+              let add := infixl fuel add_op
+                           (infixl fuel mul_op (unary_expr (nested_value_expr fuel d'))) in
+              try_map (paren (delimited space0 add space0))
+                      (fun eh => match taller (snd eh) with
+                                 | Some h => Some (SParen (fst eh), h)
+                                 | None => None
+                                 end) i
           end
-        else pmap SAmount amount i
+        else pmap (fun a => (SAmount a, 1%nat)) amount i
     end.
 
-Definition value_expr (fuel : nat) : parser s_vexpr := value_expr_d fuel max_expr_depth.
+(* value_expr: nested_value_expr(input, 0).map(|(ve, _height)| ve) *)
+Definition value_expr (fuel : nat) : parser s_vexpr := pmap fst (nested_value_expr fuel max_expr_depth).
 
 (* nesting depth actually used by a parsed expression *)
 Fixpoint vexpr_depth (v : s_vexpr) : nat :=
@@ -127,4 +184,19 @@ with expr_depth (e : s_expr) : nat :=
   | SUnaryNeg e => expr_depth e
   | SBinary _ l r => Nat.max (expr_depth l) (expr_depth r)
   | SValue v => vexpr_depth v
+  end.
+
+(* height of the syntax tree, as expr.rs counts it: an amount is 1; parentheses, a negation
+   and an operator add 1 to their tallest operand.  The recursion depth of evaluation
+   (report/eval.rs), printing (syntax/display.rs) and Drop is proportional to it. *)
+Fixpoint vexpr_height (v : s_vexpr) : nat :=
+  match v with
+  | SParen e => S (expr_height e)
+  | SAmount _ => 1
+  end
+with expr_height (e : s_expr) : nat :=
+  match e with
+  | SUnaryNeg e => S (expr_height e)
+  | SBinary _ l r => S (Nat.max (expr_height l) (expr_height r))
+  | SValue v => vexpr_height v
   end.
